@@ -4,6 +4,18 @@ import json, subprocess
 
 LEVEL = {
  # id: (category, technique, text, note, design_ref)
+ "C02": ("exploration", "bounded-exhaustive input enumeration on the implementation vs. reference model",
+         "every batch of the stored-field alphabet is built by the real code; every document number is visited completely and with a visitor stopping after each callback index; DocID, Count, Fields and DocNumbers for all subsets of a probe-id set are compared with the reference model; exhaustive within the bounds",
+         "reference model in harness/ref; inputs only inside the alphabet", "4 C02"),
+ "C03": ("exploration", "bounded-exhaustive enumeration of inputs x configurations x visiting histories on the implementation",
+         "every batch of the doc-value alphabet x doc-value chunk size x segment kind (in-memory, mmap, merged) x field list x every visiting sequence up to length L x three visit-state disciplines (fresh, threaded, alternated across segments) is executed on the real code and every callback set compared with the reference; exhaustive within the bounds",
+         "reference model in harness/ref; LegacyChunkMode set through the exported variable", "4 C03"),
+ "C12": ("exploration", "bounded-exhaustive input enumeration on the implementation vs. reference model",
+         "every batch of the synonym alphabet (N<=3, 15 document kinds) is built under both build tags, read in memory and after persist+open, and every (thesaurus, term, exclusion bitmap) lookup compared with the reference; exhaustive within the bounds",
+         "reference model in harness/ref; enumeration order of a synonym field's entries is owned by the harness' field objects", "4 C12/C13"),
+ "C04": ("exploration", "bounded-exhaustive input enumeration; differential oracle in-memory vs. persisted+opened vs. reference; independent footer/CRC decoder",
+         "a cross-section of every batch family x chunk modes x both build tags: Persist and WriteTo bytes compared, footer and CRC decoded independently, Open's reported configuration compared, and the complete query surface of the re-opened segment compared with the in-memory one and the reference; exhaustive within the bounds",
+         "reference model in harness/ref; footer decoder in props/c04.go written from zap.md; vector answers come from the stand-in engine (DESIGN 3.4)", "4 C04"),
  "C01": ("exploration", "bounded-exhaustive input enumeration on the implementation vs. reference model",
          "every batch of a stated finite alphabet (cell menu per document x field, N<=3; column and chunk-boundary families) x chunk modes x both build tags is built by the real code and its complete term/postings content compared with an independent reference model; exhaustive within the bounds, no sampling",
          "reference model in harness/ref; inputs only inside the alphabet; Go map order not enumerable (semantic oracle)", "4 C01"),
